@@ -93,6 +93,7 @@ static bool g_sched = false;			// baton mode (false: free running, yields are no
 static bool g_deref = false;			// payloads are long* to be dereferenced for printing
 static bool g_abandon = false;
 static std::atomic<bool> g_abort(false);	// free-running mode: the deadline has passed, leave the queue code
+static std::chrono::steady_clock::time_point g_deadline;	// free-running / backlog mode
 static std::vector<std::string> g_tok;
 
 struct Abandon {};
@@ -152,6 +153,10 @@ static void verif_yield()
 {
 	if (!g_sched)
 	{
+		// a queue that never lets the operation finish must not hang the harness
+		static thread_local unsigned calls = 0;
+		if ((++calls & 0x3fff) == 0 && std::chrono::steady_clock::now() > g_deadline)
+			g_abort.store(true);
 		if (g_abort.load(std::memory_order_relaxed)) throw Abandon();
 		return;
 	}
@@ -483,12 +488,12 @@ static std::string run_free(int np, int nc, unsigned long ops, unsigned long nq)
 			catch (const Abandon&) {}
 			running.fetch_sub(1);
 		});
-	const auto deadline(std::chrono::steady_clock::now() + std::chrono::seconds(15 + total / 20000));
+	g_deadline = std::chrono::steady_clock::now() + std::chrono::seconds(15 + total / 20000);
 	go.store(true);
 	while (running.load() > 0)
 	{
 		std::this_thread::sleep_for(std::chrono::milliseconds(2));
-		if (std::chrono::steady_clock::now() > deadline)
+		if (std::chrono::steady_clock::now() > g_deadline)
 			g_abort.store(true);
 	}
 	for (std::thread& t : thr)
@@ -520,19 +525,28 @@ static std::string run_backlog(Client *cl, int np, unsigned long n)
 {
 	g_sched = false;
 	g_abort.store(false);
+	g_deadline = std::chrono::steady_clock::now() + std::chrono::seconds(6 + n / 20000);
 	std::atomic<unsigned long> pushed(0);
 	if (np <= 1)
 	{
-		for (unsigned long j(0); j < n; ++j)
-			if (cl->push(j + 1)) pushed.fetch_add(1);
+		try
+		{
+			for (unsigned long j(0); j < n; ++j)
+				if (cl->push(j + 1)) pushed.fetch_add(1);
+		}
+		catch (const Abandon&) {}
 	}
 	else
 	{
 		std::vector<std::thread> thr;
 		for (int p(0); p < np; ++p)
 			thr.emplace_back([&, p] {
-				for (unsigned long j(p); j < n; j += np)
-					if (cl->push(j + 1)) pushed.fetch_add(1);
+				try
+				{
+					for (unsigned long j(p); j < n; j += np)
+						if (cl->push(j + 1)) pushed.fetch_add(1);
+				}
+				catch (const Abandon&) {}
 			});
 		for (std::thread& t : thr)
 			t.join();
@@ -540,23 +554,29 @@ static std::string run_backlog(Client *cl, int np, unsigned long n)
 	std::vector<unsigned char> seen(n + 2, 0);
 	std::vector<long> last(np < 1 ? 1 : np, -1);
 	unsigned long popped(0), empty(0), null(0), dup(0), ord(0), lost(0);
-	for (unsigned long j(0); j <= n; ++j)
+	try
 	{
-		unsigned long v(0);
-		if (!cl->pop(v)) { ++empty; continue; }
-		++popped;
-		if (v < 1 || v > n) { ++null; continue; }		// pop said true but delivered nothing usable
-		if (seen[v]++) ++dup;
-		const int p(np <= 1 ? 0 : static_cast<int>((v - 1) % np));
-		if (static_cast<long>(v) <= last[p]) ++ord;
-		if (np <= 1 && v != popped) ++ord;			// single producer: exact FIFO position
-		last[p] = static_cast<long>(v);
+		for (unsigned long j(0); j <= n; ++j)
+		{
+			unsigned long v(0);
+			if (!cl->pop(v)) { ++empty; continue; }
+			++popped;
+			if (v < 1 || v > n) { ++null; continue; }		// pop said true but delivered nothing usable
+			if (seen[v]++) ++dup;
+			const int p(np <= 1 ? 0 : static_cast<int>((v - 1) % np));
+			if (static_cast<long>(v) <= last[p]) ++ord;
+			if (np <= 1 && v != popped) ++ord;			// single producer: exact FIFO position
+			last[p] = static_cast<long>(v);
+		}
 	}
+	catch (const Abandon&) {}
 	for (unsigned long v(1); v <= n; ++v)
 		if (!seen[v]) ++lost;
 	std::ostringstream os;
 	os << "BACKLOG pushed=" << pushed.load() << " popped=" << popped << " empty=" << empty << " null=" << null
 		<< " dup=" << dup << " lost=" << lost << " ord=" << ord;
+	if (g_abort.load()) os << " TIMEOUT";
+	g_abort.store(false);
 	return os.str();
 }
 
